@@ -206,7 +206,7 @@ def _sequential_table(p, led, tier, cascade, runfi):
                         def mk(i=i):
                             @stub
                             def cp(interp, args, kwargs):
-                                k = 0 if phase["first"] else interp.o.choose(4, f"checkpoint {i}: passes / refuses / raises / raises an exception without a message")
+                                k = 0 if phase["first"] else interp.o.choose(2 if _variant == "same-name" else 4, f"checkpoint {i}: passes / refuses / raises / raises an exception without a message")
                                 log.append(("cp", i, args[0], k))
                                 if k == 2:
                                     raise PyRaise(ExcVal("RuntimeError", ("gate crashed",)))
